@@ -140,6 +140,12 @@ pub enum InvalidSchemaError {
 
     #[error("Multiple scalar types with the name \"{0}\".")]
     DuplicateScalarDefinition(String),
+
+    #[error(
+        "Multiple \"schema\" definitions. A schema must contain exactly one \"schema\" \
+        definition, which names the root query type."
+    )]
+    DuplicateSchemaDefinition,
 }
 
 impl From<Vec<InvalidSchemaError>> for InvalidSchemaError {
